@@ -3,8 +3,10 @@ package main
 import (
 	"fmt"
 	"go/token"
+	"regexp"
 	"sort"
 	"strings"
+	"time"
 
 	"golang.org/x/tools/go/ssa"
 )
@@ -401,6 +403,37 @@ func rulesC05(e *Engine, r *Report) {
 	// ---------------------------------------------------------------- R05.14
 	r.Rule("R05.14", "a late part cannot touch a file that has moved on: every write into a staged partial (io.Copy / Write / Truncate on a handle opened on <path>.part) is made while the lock of <path> is held, in the function itself or by every caller - completion, validation and delivery (a rename: same inode) run under the exclusive lock, so a write outside it continues through its handle into the validated or delivered file")
 	e.checkStagedWritesUnderLock(r, "R05.14")
+	// ---------------------------------------------------------------- R05.15
+	r.Rule("R05.15", "a question about old parts is answered from the log of that time: partReceived refills the delivered-files cache back to the part's file time, clamped to now and to a horizon of no less than 30 days (frozen: the value on the tree; a shorter horizon makes a delivery older than it look unknown - the sender re-sends the version and Receive, which never consults the log, delivers it again)")
+	if fn := needFn(e, r, "R05.15", "stage.(*Stage).partReceived"); fn != nil {
+		calls := e.findInstrs(fn, "call(stage.(*Stage).buildCache)(p0, §)", false)
+		r.Min("R05.15", "buildCache calls in partReceived", len(calls), 1)
+		horizon := regexp.MustCompile(`^call\(time\.\(Time\)\.Add\)\(call\(time\.Now\)\(\), -(\d+)\)$`)
+		for _, in := range calls {
+			hasTime, ok := false, true
+			var facts []string
+			for _, leaf := range e.phiLeaves(in.(*ssa.Call).Call.Args[1]) {
+				s := e.Canon(leaf)
+				switch {
+				case s == "invoke(sts.Binned.GetFileTime)(p1)":
+					hasTime = true
+				case s == "call(time.Now)()":
+				default:
+					m := horizon.FindStringSubmatch(s)
+					var ns int64
+					if m != nil {
+						fmt.Sscan(m[1], &ns)
+					}
+					if m == nil || ns < int64(30*24*time.Hour) {
+						ok = false
+					}
+					facts = append(facts, "horizon "+s)
+				}
+			}
+			r.Check(ok && hasTime, "R05.15", "stage.(*Stage).partReceived: the cache is refilled back to the part's file time (horizon >= 30 d)", e.InstrPos(in),
+				"the refill does not reach back to the part's file time or is cut off at less than 30 days: "+strings.Join(facts, "; "), 1, facts...)
+		}
+	}
 }
 
 func nameOr(m map[string]string, k string) string {
